@@ -22,6 +22,7 @@ import (
 var (
 	ErrICMPNoRoute        = errors.New("no ICMP route available")
 	ErrICMPStreamNotFound = errors.New("ICMP stream not found")
+	ErrICMPNoSessionKey   = errors.New("ICMP session has no session key")
 )
 
 // icmpIngressAssociation tracks a SOCKS5 ICMP session from the ingress side.
@@ -682,15 +683,15 @@ func (a *Agent) RelayICMPEcho(streamID uint64, identifier, sequence uint16, payl
 	nextHop := assoc.NextHop
 	assoc.mu.RUnlock()
 
-	var ciphertext []byte
-	var err error
-	if sessionKey != nil {
-		ciphertext, err = sessionKey.Encrypt(payload)
-		if err != nil {
-			return err
-		}
-	} else {
-		ciphertext = payload
+	// Fail closed: without an end-to-end session key (for example when the
+	// ephemeral key was stripped from the ICMP_OPEN_ACK on its way back) the
+	// echo payload must not be sent, otherwise every transit agent could read it.
+	if sessionKey == nil {
+		return ErrICMPNoSessionKey
+	}
+	ciphertext, err := sessionKey.Encrypt(payload)
+	if err != nil {
+		return err
 	}
 
 	echo := &protocol.ICMPEcho{
